@@ -142,18 +142,17 @@ def run(ctx):
     for val in (0.0, 3.0, 7.0, fractions.Fraction(3), fractions.Fraction(0), decimal.Decimal(5), complex(2, 0), 8.0, -1.0,
                 fractions.Fraction(7, 2), decimal.Decimal("2.5")):
         for where in ("ctor", "assign", "assign-compiled"):
-            def f():
-                if where == "ctor":
-                    q = qrcode.QRCode(mask_pattern=val)
-                else:
-                    q = qrcode.QRCode()
-                    if where == "assign-compiled":
-                        q.add_data("y"); q.make()
-                    q.mask_pattern = val
-                q.add_data("x"); q.make_image(image_factory=PyPNGImage)
-            got_ = attempt(f)
+            # the rejection must happen WHERE the value is supplied (a TypeError raised later, from inside the compile, by
+            # arithmetic on the stored non-integer is not a rejection of the setting)
+            if where == "ctor":
+                got_ = attempt(lambda: qrcode.QRCode(mask_pattern=val))
+            else:
+                q = qrcode.QRCode()
+                if where == "assign-compiled":
+                    q.add_data("y"); q.make()
+                got_ = attempt(lambda: setattr(q, "mask_pattern", val))
             R.oracle(f"nonint-equal {where} mask_pattern {val!r}", got_ == "TypeError",
-                     dict(input=f"mask_pattern={val!r} ({where}) then make_image", expected="TypeError", observed=str(got_)), tag="P3:non-integer")
+                     dict(input=f"mask_pattern={val!r} supplied at {where}", expected="TypeError where it is supplied", observed=str(got_)), tag="P3:non-integer")
     # fractional values: whatever conversion the library applies, a setting it ACCEPTS must be held in range and the image must
     # carry a non-negative quiet zone and a positive box (the state held when something is produced decides, not the argument)
     for val in (-0.999, -0.75, -0.5, -0.25, 0.25, 0.5, 0.75, 1.5, 2.5, 3.999):
